@@ -314,6 +314,51 @@ var scenarios = []*scenario{
 			return []string{"stale-dispatch: after remove-method completed the calls gave " + o.val + "; (real|fixnum real real) required"}
 		},
 		canon: func(o *obs) string { return "completed" }},
+	{name: "d5-before-daemon-vs-call", group: "d", yield: false, quick: 2, thorough: -1,
+		src: `(progn
+  (defgeneric @G (a))
+  (defmethod @G ((a real)) (tr 'primary) 'real-method)
+  (let ((d (make-channel 2)) (r1 nil))
+    (run (progn (defmethod @G :before ((a fixnum)) (tr 'before)) (channel-push d t)))
+    (setq r1 (@G 1))
+    (channel-pop d)
+    (tr 'joined)
+    (list r1 (@G 1))))`,
+		check: func(o *obs) []string {
+			if o.err != nil {
+				return []string{"error: " + o.err.String()}
+			}
+			if o.val != "(real-method real-method)" {
+				return []string{"final-value: got " + o.val}
+			}
+			// first call: (primary) or (before primary); after the join: before primary
+			t := strings.Join(o.trace, " ")
+			if t != "primary joined before primary" && t != "before primary joined before primary" {
+				return []string{"stale-dispatch: trace " + t + "; after the :before daemon was defined the call must run it"}
+			}
+			return nil
+		},
+		canon: func(o *obs) string { return "completed" }},
+	{name: "d6-two-callers-and-defmethod", group: "d", yield: false, quick: 2, thorough: 3,
+		src: `(progn
+  (defgeneric @G (a))
+  (defmethod @G ((a real)) 'real-method)
+  (let ((d (make-channel 3)) (r1 nil) (r2 nil))
+    (run (progn (defmethod @G ((a fixnum)) 'fixnum-method) (channel-push d t)))
+    (run (progn (setq r2 (@G 2)) (channel-push d t)))
+    (setq r1 (@G 1))
+    (channel-pop d) (channel-pop d)
+    (list (@G 1) (@G 2) (@G 1.5))))`,
+		check: func(o *obs) []string {
+			if o.err != nil {
+				return []string{"error: " + o.err.String()}
+			}
+			if o.val != "(fixnum-method fixnum-method real-method)" {
+				return []string{"stale-dispatch: after defmethod completed the calls gave " + o.val + "; (fixnum fixnum real) required"}
+			}
+			return nil
+		},
+		canon: func(o *obs) string { return "completed" }},
 	// ---- (e) negative control: an unsynchronised read-modify-write MUST be caught
 	{name: "e1-unsynchronised-counter", group: "e", yield: true, negative: true, quick: 2, thorough: 2,
 		src: `(let ((n 0) (d (make-channel 2)))
@@ -561,6 +606,38 @@ func execCase(spec string) (res engine.Result) {
 	res.Fail("harness:bad-spec", spec)
 	return
 }
+
+// GenericScenarioSpecs returns the case specs (plain exploration shards + race pass) of the scenarios
+// about generic function dispatch under concurrency, for the concurrent half of C10.
+func GenericScenarioSpecs(tier string) []string {
+	var specs []string
+	rb, rs := 1, 1
+	if tier == engine.Thorough {
+		rb, rs = 2, 4
+	}
+	for _, sc := range scenarios {
+		if !strings.HasPrefix(sc.name, "d3-") && !strings.HasPrefix(sc.name, "d4-") && !strings.HasPrefix(sc.name, "d5-") && !strings.HasPrefix(sc.name, "d6-") {
+			continue
+		}
+		for sh := 0; sh < nShards; sh++ {
+			specs = append(specs, fmt.Sprintf("explore|%s|%d|%d|%d", sc.name, bound(sc, tier), sh, nShards))
+		}
+		b := rb
+		if 0 <= bound(sc, tier) && bound(sc, tier) < b {
+			b = bound(sc, tier)
+		}
+		for sh := 0; sh < rs; sh++ {
+			specs = append(specs, fmt.Sprintf("race|%s|%d|%d|%d", sc.name, b, sh, rs))
+		}
+	}
+	return specs
+}
+
+// ExecSpec runs one explore / replay / race spec (used by C10's concurrent half).
+func ExecSpec(spec string) engine.Result { return execCase(spec) }
+
+// RaceBinary names the property whose -race binary runs the race pass (C17 by default).
+var RaceBinary = "C17"
 
 func init() {
 	engine.Register(&engine.Prop{
